@@ -114,7 +114,7 @@ def datum_of(d):
     return cfdm.Datum(parameters={"earth_radius": 6371000.0 + d})
 
 
-LISTS = {0: [0, 2], 1: [1, 3], 2: [1, 2, 3]}
+LISTS = {0: [0, 2], 1: [1, 3], 2: [1, 2, 3], 3: [0, 1, 3]}
 COUNTS = {0: [2, 1, 3], 1: [1, 3, 2], 2: [2, 1], 3: [1, 2]}
 
 
@@ -154,6 +154,11 @@ def build(sk):
             for c in f.auxiliary_coordinates(todict=True).values():
                 if "nodes" in sk["exvar"] and c.has_bounds():
                     c.bounds.set_data(cfdm.Data(c.bounds.data.array + 1.0), inplace=True)
+                if "ring" in sk["exvar"]:
+                    # same nodes, same counts, other interior rings
+                    ir = c.get_interior_ring(None)
+                    if ir is not None:
+                        ir.set_data(cfdm.Data(1 - ir.data.array), inplace=True)
                 if "inst" in sk["exvar"] and c.has_data():
                     # every instance-level coordinate differs, so that the variant needs an instance
                     # dimension of its own
@@ -201,10 +206,24 @@ def build(sk):
     for it in sk["anc"]:
         shp = tuple(sizes[a] for a in it["ax"])
         anckeys.append(f.set_construct(mk(cfdm.DomainAncillary, it, shp), axes=[axes[a] for a in it["ax"]]))
+    for it in sk.get("gcons", []):
+        # an auxiliary coordinate whose own data are compressed by gathering over axes p .. p+n-1
+        gax = list(range(it["p"], it["p"] + it["n"]))
+        shp = tuple(sizes[a] for a in gax)
+        lst = LISTS[it["lt"]]
+        comp = (it["t"] // 4) * 100.0 + np.arange(len(lst), dtype=float)
+        arr = cfdm.GatheredArray(compressed_array=cfdm.Data(comp), shape=shp,
+                                 compressed_dimensions={0: tuple(range(len(gax)))},
+                                 list_variable=cfdm.List(data=cfdm.Data(np.array(lst))))
+        c = cfdm.AuxiliaryCoordinate(properties=props_of(it["t"]), data=cfdm.Data(arr))
+        f.set_construct(c, axes=[axes[a] for a in gax])
     for it in sk["meas"]:
         shp = tuple(sizes[a] for a in it["ax"])
         c = mk(cfdm.CellMeasure, it, shp)
         c.set_measure("area")
+        if sk.get("extm"):
+            # an external cell measure: named in external_variables, no variable in this file
+            c.nc_set_external(True)
         f.set_construct(c, axes=[axes[a] for a in it["ax"]])
     for it in sk["fanc"]:
         shp = tuple(sizes[a] for a in it["ax"])
@@ -282,7 +301,18 @@ def fingerprint(f):
     isfield = f.construct_type == "field"
     axes = f.domain_axes(todict=True)
     order = list(f.get_data_axes()) if isfield else []
-    order += [a for a in sorted(axes) if a not in order]
+    # axes not spanned by data (all axes of a domain) have no order of their own: their construct keys depend
+    # on the order of dimensions in the file.  Order them canonically, by size and by what lives on them alone
+    oned = {}
+    for key, c in f.constructs.filter_by_type(
+            "dimension_coordinate", "auxiliary_coordinate", "domain_ancillary", "cell_measure",
+            todict=True).items():
+        ax = f.constructs.data_axes().get(key, ())
+        if len(ax) == 1:
+            oned.setdefault(ax[0], []).append(json.dumps(cfp(f, key, c), sort_keys=True, default=str))
+    rest = [a for a in axes if a not in order]
+    rest.sort(key=lambda a: (axes[a].get_size(), sorted(oned.get(a, [])), a))
+    order += rest
     pos = {a: i for i, a in enumerate(order)}
     fprops = pr(f)
     fprops.pop("Conventions", None)  # added by every write
@@ -420,7 +450,11 @@ def raw_view(path, sks):
             coords = str(a.get("coordinates", "")).split()
             # a domain variable's dimensions are unordered: recover the axis order by the coordinate variables
             if sk.get("dom"):
-                o["dims"] = ddims = order_domain_dims(sk, ddims, dims, ltok)
+                o["dims"] = ddims = order_domain_dims(
+                    sk, ddims, dims, ltok,
+                    lambda n, i, it: variables[n].size == sk["sizes"][i]
+                    and (("bounds" in atts[n]) == (it.get("b") is not None)),
+                    lambda d, i: d in nc.dimensions and nc.dimensions[d].size == sk["sizes"][i])
 
             def find(cands, it, want_dims):
                 for n in cands:
@@ -578,7 +612,69 @@ def raw_cview(path, sks):
         nc.close()
 
 
-def order_domain_dims(sk, ddims, dims, ltok):
+def raw_gview(path, sks):
+    """fields with gathered data and / or gathered auxiliary coordinates: per gathered item (data first) the
+    list variable it is written on, that variable's values and compress attribute, and the dimensions of the
+    field's own coordinate variables of the gathered axes"""
+    nc = netCDF4.Dataset(path, "r")
+    try:
+        variables = nc.variables
+        atts = {n: {a: v.getncattr(a) for a in v.ncattrs()} for n, v in variables.items()}
+        dims = {n: list(v.dimensions) for n, v in variables.items()}
+
+        def ltok0(n):
+            ln = atts[n].get("long_name")
+            if not isinstance(ln, str) or not ln.startswith("t"):
+                return None
+            return int(ln[1:]) * 4 + (2 if atts[n].get("comment") == "v2" else 3 if atts[n].get("units") == "km" else 0)
+
+        def own_dims(sk, p, n):
+            own = []
+            for a in range(p, p + n):
+                it = sk["dim"][a]
+                if it is None:
+                    own.append(None)
+                    continue
+                cands = [v for v in variables if dims[v] == [v] and variables[v].size == sk["sizes"][a]
+                         and ltok0(v) is not None and ltok0(v) // 4 == it["t"] // 4
+                         and (ltok0(v) % 4 == it["t"] % 4 or it["t"] % 4 == 1)
+                         and (("bounds" in atts[v]) == (it.get("b") is not None))]
+                if it["t"] % 4 in (0, 1):
+                    cands = [v for v in cands
+                             if (float(np.ma.getdata(variables[v][...]).flat[-1]) % 1 == 0.5) == (it["t"] % 4 == 1)]
+                own.append(cands[0] if len(cands) == 1 else None)
+            return own
+
+        def item(var, sk, lt, p, n):
+            lv = [d for d in dims.get(var, []) if d in variables and "compress" in atts[d]]
+            o = {"var": var, "dims": dims.get(var), "list": lv[0] if len(lv) == 1 else None, "own": own_dims(sk, p, n)}
+            if o["list"] is not None:
+                o["meaning"] = str(atts[o["list"]]["compress"]).split()
+                o["values"] = [int(x) for x in np.ma.getdata(variables[o["list"]][...]).ravel().tolist()]
+            return o
+        out = []
+        for sk in sks:
+            dvs = [n for n, a in atts.items() if "fid" in a and int(a["fid"]) == sk["id"]]
+            if len(dvs) != 1:
+                out.append({"err": f"{len(dvs)} data variables carry fid {sk['id']}"})
+                continue
+            dv = dvs[0]
+            items = []
+            c = sk.get("cmp")
+            if c is not None:
+                items.append(item(dv, sk, c["t"], c["p"], c["n"]))
+            coords = str(atts[dv].get("coordinates", "")).split()
+            for it in sk.get("gcons", []):
+                cands = [n for n in coords if n in variables and ltok0(n) == it["t"]]
+                items.append(item(cands[0], sk, it["lt"], it["p"], it["n"]) if len(cands) == 1
+                             else {"var": None, "list": None, "own": []})
+            out.append({"dv": dv, "items": items})
+        return out
+    finally:
+        nc.close()
+
+
+def order_domain_dims(sk, ddims, dims, ltok, fits=lambda n, i, it: True, dfits=lambda d, i: True):
     """axis order of a domain variable, recovered through its coordinate variables"""
     out = []
     left = list(ddims)
@@ -586,16 +682,17 @@ def order_domain_dims(sk, ddims, dims, ltok):
         got = None
         if it is not None:
             for d in left:
-                if d in dims and dims[d] == [d] and ltok(d) == it["t"]:
+                if d in dims and dims[d] == [d] and ltok(d) == it["t"] and fits(d, i, it):
                     got = d
                     break
         if got is None and left:
             for d in left:
-                if d not in dims:
+                if d not in dims and dfits(d, i):
                     got = d
                     break
         if got is None and left:
-            got = left[0]
+            cands = [d for d in left if dfits(d, i)]
+            got = (cands or left)[0]
         if got is not None:
             left.remove(got)
         out.append(got if got is not None else "?")
@@ -632,7 +729,7 @@ def run_case(case, scratch, ci):
             s["equal"] = [bool(h.equals(o)) and bool(o.equals(h)) for h in got]
             s["fps"] = [fingerprint(h) for h in got]
             s["faithful"] = (len(got) == 1 and s["equal"] == [True] and s["fps"][0] == s["fp_orig"])
-            if sk.get("ex") is None and sk.get("cmp") is None:
+            if sk.get("ex") is None and sk.get("cmp") is None and not sk.get("gfam"):
                 _, _, s["nvars"] = raw_view(p, [sk])
             s["view"] = [token_view(h) for h in got][:1]
         except Exception as e:
@@ -655,7 +752,12 @@ def run_case(case, scratch, ci):
             r["write_exc"] = type(e).__name__ + ": " + str(e)[:300]
             row["orders"].append(r)
             continue
-        if all(sk.get("cmp") is not None for sk in sks):
+        if any(sk.get("gfam") for sk in sks):
+            try:
+                r["gfile"] = raw_gview(p, [sks[k] for k in order])
+            except Exception as e:
+                r["raw_exc"] = type(e).__name__ + ": " + str(e)[:300] + traceback.format_exc()[-400:]
+        elif all(sk.get("cmp") is not None for sk in sks):
             try:
                 r["cfile"] = raw_cview(p, [sks[k] for k in order])
             except Exception as e:
